@@ -16,7 +16,7 @@ func init() {
 	register(&Check{
 		ID:    "C06",
 		Level: "model_checking",
-		Rule: "explicit enumeration of the file-system state transition of RunFiles: 21 sources (three of them with two or three commands; replacement longer / equal / shorter / empty / absent for some or all matches / multi-byte UTF-8, zero matches, match at offset 0 and at the end, adjacent matches covering the file, skip/take/last windows, anchors, find) x every file content over {a,b,\\n} up to length 4 plus 4095/4096/4097/8193-byte files with the motif at the start, across the buffer boundary and at the end x mode {NOTHING, NEW, OVERWRITE} x pre-state {no .vored, stale longer .vored, stale shorter .vored} x {one file, two files}; " +
+		Rule: "explicit enumeration of the file-system state transition of RunFiles: 21 sources (three of them with two or three commands; replacement longer / equal / shorter / empty / absent for some or all matches / multi-byte UTF-8, zero matches, match at offset 0 and at the end, adjacent matches covering the file, skip/take/last windows, anchors, find) x every file content over {a,b,\\n} up to length 4 plus 4095/4096/4097/8193-byte files with the motif at the start, across the buffer boundary and at the end x mode {NOTHING, NEW, OVERWRITE} x pre-state {no .vored, stale longer .vored, stale shorter .vored, no .vored with the directory itself as the argument} x {one file, two files}; " +
 			"state = complete directory snapshot (names and bytes); the post-state must equal the expected directory: NOTHING identical, NEW original untouched + <f>.vored == splice(input, matches, replacements) and nothing else, OVERWRITE <f> == splice and nothing else, find identical in every mode; splice is computed from Run(string); states = distinct (pre,post) directory snapshots, transitions = RunFiles calls",
 		Assume: []string{"the operating system performs the writes; no crash points are explored (no property asks for it)"},
 		Budget: map[string]int{"quick": 150, "thorough": 1200},
@@ -112,7 +112,8 @@ func runC06(c *Ctx) {
 	small := texts("ab\n", c.Pick(3, 4))
 	contents := append(append([]string{}, small...), bigContents()...)
 	modes := []engine.ReplaceMode{engine.NOTHING, engine.NEW, engine.OVERWRITE}
-	pre := []string{"none", "stale-longer", "stale-shorter"}
+	// "dir-arg": no stale output, and the directory that holds the files is the argument instead of the files
+	pre := []string{"none", "stale-longer", "stale-shorter", "dir-arg"}
 	if !c.Level("product") {
 		return
 	}
@@ -170,6 +171,9 @@ func runC06(c *Ctx) {
 						if n%300 == 0 {
 							runtime.GC() // file descriptors of readers the engine does not close are released by finalizers
 						}
+						if ps == "dir-arg" && len(subs) > 1 {
+							continue // a later command would list the .vored files an earlier one wrote
+						}
 						c06Case(c, v, cmd, content, want, isReplace, mode, ps, two, model)
 					}
 				}
@@ -213,6 +217,9 @@ func c06Case(c *Ctx, v *libvore.Vore, cmd, content, want string, isReplace bool,
 	var paths []string
 	for _, f := range files {
 		paths = append(paths, filepath.Join(dir, f))
+	}
+	if pre == "dir-arg" {
+		paths = []string{dir}
 	}
 	c.Eval(1)
 	c.Count("runfiles_calls", 1)
